@@ -410,6 +410,10 @@ def prop_violation(c, prop=None):
         g, m = _prop_fields(go_core(c.go)), _prop_fields(c.model)
         if g != m and not c.model.startswith("OOF") and not c.go.startswith("HANG"):
             return "go=%s definition=%s" % (g[:300], m[:300])
+        if c.go.startswith("HANG") and c.model.startswith(("ok", "err")):
+            # the definition says this program TERMINATES (with a value or an error); the real evaluator was still
+            # running it when the case watchdog (seconds, for a program that takes milliseconds) gave up
+            return "go did not terminate (watchdog) definition=%s" % m[:300]
     if "\t!" in c.go:
         return c.go.split("\t!", 1)[1]
     if c.spec != "-" and go_core(c.go) != c.spec:
